@@ -56,7 +56,7 @@ reg(Prop('C11', [
                'reorder_base_types is the stable partition; size/write/calculate_offsets/write (tree) do not panic. '
                'The model is tied to gimli by byte-exact comparison of .debug_info/.debug_abbrev/.debug_str/.debug_line_str on ~16k (quick) / ~300k (thorough) generated API scripts '
                'plus gimli::read read-back of every case.',
-    level_note='(wrglue) In the glue theorems the hypothesis "an Expression\'s predicted size equals the bytes it writes" is discharged by C15 for every GExpr; it remains only for opaque UnitWr Exprloc values. Restrictions of the composed model: tree given after reorder_base_types, LineProgram::none(), no string tables, expression entry ids inside the entries vector (OpWr.debug_info_offset still panics on an id beyond it, the repaired gimli returns None: divergence outside the generated domain, see notes/wrglue.md). '
+    level_note='(wrglue) In the glue theorems the hypothesis "an Expression\'s predicted size equals the bytes it writes" is discharged by C15 for every GExpr; it remains only for opaque UnitWr Exprloc values. Restrictions of the composed model: tree given after reorder_base_types, LineProgram::none(), no string tables, (follow-up) OpWr.debug_info_offset now mirrors gimli fix c42c00d: ids beyond the entries vector (reserved, never added) are forward-reference / InvalidReference errors in the model too, and c11.glue / c15.expr generate them. '
                'Hypotheses that remain in the theorems: an Expression\'s predicted size equals the bytes it writes (C15), the unit fits 2^64 bytes, entry ids are unique '
                '(the arena is a tree), AttributeValue::String has no NUL (documented precondition). Trusted: the hand-written model (tied by differential execution only), '
                'Spec/UnitWrSpec.v as the meaning of DIE bytes, harness/src/c11.rs + dump.rs (script interpreter, predicted dump), OCaml glue computing list offsets for the '
